@@ -1,4 +1,9 @@
 
+(** val implb : bool -> bool -> bool **)
+
+let implb b1 b2 =
+  if b1 then b2 else true
+
 (** val negb : bool -> bool **)
 
 let negb = function
@@ -507,6 +512,20 @@ module Z =
                  | Zneg q -> Pos.eqb p q
                  | _ -> false)
 
+  (** val max : z -> z -> z **)
+
+  let max n0 m =
+    match compare n0 m with
+    | Lt -> m
+    | _ -> n0
+
+  (** val min : z -> z -> z **)
+
+  let min n0 m =
+    match compare n0 m with
+    | Gt -> m
+    | _ -> n0
+
   (** val to_nat : z -> nat **)
 
   let to_nat = function
@@ -566,6 +585,11 @@ module Z =
           | Z0 -> ((opp q), Z0)
           | _ -> ((opp (add q (Zpos XH))), (sub b r)))
        | Zneg b' -> let (q, r) = pos_div_eucl a' (Zpos b') in (q, (opp r)))
+
+  (** val div : z -> z -> z **)
+
+  let div a b =
+    let (q, _) = div_eucl a b in q
 
   (** val modulo : z -> z -> z **)
 
@@ -2393,11 +2417,12 @@ let with_insts_buff f i b =
 (** val parse_go :
     z -> z list -> z -> frame -> frame list -> z list -> parse_res **)
 
-let rec parse_go w cs i top stack positions =
+let rec parse_go w cs i top0 stack positions =
   match cs with
   | [] ->
     (match stack with
-     | [] -> POk (top.f_shift, (rev (flush_nonzero top.f_buff top.f_insts)))
+     | [] ->
+       POk (top0.f_shift, (rev (flush_nonzero top0.f_buff top0.f_insts)))
      | _ :: _ ->
        (match positions with
         | [] -> PErr (LoopNotClosed, Z0)
@@ -2405,39 +2430,41 @@ let rec parse_go w cs i top stack positions =
   | c :: cs' ->
     if Z.eqb c ch_gt
     then parse_go w cs' (Z.add i (Zpos XH))
-           (with_shift top (Z.add top.f_shift (Zpos XH))) stack positions
+           (with_shift top0 (Z.add top0.f_shift (Zpos XH))) stack positions
     else if Z.eqb c ch_lt
          then parse_go w cs' (Z.add i (Zpos XH))
-                (with_shift top (Z.sub top.f_shift (Zpos XH))) stack positions
+                (with_shift top0 (Z.sub top0.f_shift (Zpos XH))) stack
+                positions
          else if Z.eqb c ch_plus
               then parse_go w cs' (Z.add i (Zpos XH))
-                     (with_insts_buff top top.f_insts
-                       (buff_set top.f_buff top.f_shift
-                         (wadd w (buff_val top.f_buff top.f_shift) (Zpos XH))))
-                     stack positions
+                     (with_insts_buff top0 top0.f_insts
+                       (buff_set top0.f_buff top0.f_shift
+                         (wadd w (buff_val top0.f_buff top0.f_shift) (Zpos
+                           XH)))) stack positions
               else if Z.eqb c ch_minus
                    then parse_go w cs' (Z.add i (Zpos XH))
-                          (with_insts_buff top top.f_insts
-                            (buff_set top.f_buff top.f_shift
-                              (wadd w (buff_val top.f_buff top.f_shift)
+                          (with_insts_buff top0 top0.f_insts
+                            (buff_set top0.f_buff top0.f_shift
+                              (wadd w (buff_val top0.f_buff top0.f_shift)
                                 (neg_one w)))) stack positions
                    else if Z.eqb c ch_dot
                         then let (insts, b) =
-                               flush_key top.f_shift (top.f_insts, top.f_buff)
+                               flush_key top0.f_shift (top0.f_insts,
+                                 top0.f_buff)
                              in
                              parse_go w cs' (Z.add i (Zpos XH))
-                               (with_insts_buff top ((IOut
-                                 top.f_shift) :: insts) b) stack positions
+                               (with_insts_buff top0 ((IOut
+                                 top0.f_shift) :: insts) b) stack positions
                         else if Z.eqb c ch_comma
                              then parse_go w cs' (Z.add i (Zpos XH))
-                                    (with_insts_buff top ((IIn
-                                      top.f_shift) :: top.f_insts)
-                                      (buff_set top.f_buff top.f_shift Z0))
+                                    (with_insts_buff top0 ((IIn
+                                      top0.f_shift) :: top0.f_insts)
+                                      (buff_set top0.f_buff top0.f_shift Z0))
                                     stack positions
                              else if Z.eqb c ch_open
                                   then parse_go w cs' (Z.add i (Zpos XH))
-                                         (frame0 top.f_shift) (top :: stack)
-                                         (i :: positions)
+                                         (frame0 top0.f_shift)
+                                         (top0 :: stack) (i :: positions)
                                   else if Z.eqb c ch_close
                                        then (match positions with
                                              | [] -> PErr (LoopNotOpened, i)
@@ -2448,10 +2475,10 @@ let rec parse_go w cs i top stack positions =
                                                 | parent :: stack' ->
                                                   parse_go w cs'
                                                     (Z.add i (Zpos XH))
-                                                    (close_loop w top parent)
+                                                    (close_loop w top0 parent)
                                                     stack' positions'))
                                        else parse_go w cs'
-                                              (Z.add i (Zpos XH)) top stack
+                                              (Z.add i (Zpos XH)) top0 stack
                                               positions
 
 (** val parse : z -> z list -> parse_res **)
@@ -2704,3 +2731,279 @@ let cert_ok w e p i d =
         | Some cj -> cfg_equiv e ci cj
         | None -> false)
      | None -> false)
+
+(** val u64 : z **)
+
+let u64 =
+  Z.pow (Zpos (XO XH)) (Zpos (XO (XO (XO (XO (XO (XO XH)))))))
+
+(** val wrap64 : z -> z **)
+
+let wrap64 x =
+  Z.modulo x u64
+
+(** val to_signed : z -> z **)
+
+let to_signed x =
+  if Z.ltb x (Z.pow (Zpos (XO XH)) (Zpos (XI (XI (XI (XI (XI XH)))))))
+  then x
+  else Z.sub x u64
+
+(** val sIZE_LIMIT : z **)
+
+let sIZE_LIMIT =
+  Z.pow (Zpos (XO XH)) (Zpos (XO (XI (XI (XI (XI XH))))))
+
+type rtape = { t_buf : (z -> z); t_size : z; t_off : z }
+
+(** val rtape0 : rtape **)
+
+let rtape0 =
+  { t_buf = (fun _ -> Z0); t_size = Z0; t_off = Z0 }
+
+type policy = z -> z -> z -> z * z
+
+(** val rust_policy : policy **)
+
+let rust_policy size nb na =
+  let new_size = Z.add size (Z.max (Z.div size (Zpos (XO XH))) (Z.add nb na))
+  in
+  let added_below =
+    if Z.eqb nb Z0
+    then Z0
+    else if Z.eqb na Z0
+         then Z.sub new_size size
+         else Z.min (Z.max nb (Z.div (Z.sub new_size size) (Zpos (XO XH))))
+                (Z.sub (Z.sub new_size size) na)
+  in
+  (new_size, added_below)
+
+type 'a tres =
+| TOk of 'a
+| RawOob of z
+| TooLarge
+| AllocFail
+
+(** val t_mov : rtape -> z -> rtape **)
+
+let t_mov t0 d =
+  { t_buf = t0.t_buf; t_size = t0.t_size; t_off =
+    (wrap64 (Z.add t0.t_off d)) }
+
+(** val t_ptr : rtape -> z -> z **)
+
+let t_ptr t0 o =
+  wrap64 (Z.add t0.t_off o)
+
+(** val t_read : rtape -> z -> z **)
+
+let t_read t0 o =
+  let p = t_ptr t0 o in if Z.ltb p t0.t_size then t0.t_buf p else Z0
+
+(** val t_check : rtape -> z -> bool **)
+
+let t_check t0 o =
+  Z.ltb (t_ptr t0 o) t0.t_size
+
+(** val needed_below : z -> z **)
+
+let needed_below start_ptr =
+  if Z.ltb start_ptr Z0 then Z.opp start_ptr else Z0
+
+(** val needed_above : z -> z -> z **)
+
+let needed_above end_ptr size =
+  if Z.ltb size end_ptr then Z.sub end_ptr size else Z0
+
+(** val t_make_accessible :
+    policy -> bool -> rtape -> z -> z -> rtape tres **)
+
+let t_make_accessible pol alloc_ok t0 a b =
+  let start_ptr = Z.add (to_signed t0.t_off) a in
+  let end_ptr = Z.add (to_signed t0.t_off) b in
+  let nb = needed_below start_ptr in
+  let na = needed_above end_ptr t0.t_size in
+  if (&&) (Z.eqb nb Z0) (Z.eqb na Z0)
+  then TOk t0
+  else let (new_size, added_below) = pol t0.t_size nb na in
+       if Z.leb sIZE_LIMIT new_size
+       then TooLarge
+       else if negb alloc_ok
+            then AllocFail
+            else let old = t0.t_buf in
+                 let sz = t0.t_size in
+                 TOk { t_buf = (fun i ->
+                 if (&&) (Z.leb added_below i)
+                      (Z.ltb i (Z.add added_below sz))
+                 then old (Z.sub i added_below)
+                 else Z0); t_size = new_size; t_off =
+                 (wrap64 (Z.add t0.t_off added_below)) }
+
+(** val t_raw_write : rtape -> z -> z -> rtape tres **)
+
+let t_raw_write t0 p v =
+  if (&&) (Z.leb Z0 p) (Z.ltb p t0.t_size)
+  then TOk { t_buf = (fun i -> if Z.eqb i p then v else t0.t_buf i); t_size =
+         t0.t_size; t_off = t0.t_off }
+  else RawOob p
+
+(** val t_write : policy -> bool -> rtape -> z -> z -> rtape tres **)
+
+let t_write pol alloc_ok t0 o v =
+  let p = t_ptr t0 o in
+  if Z.ltb p t0.t_size
+  then t_raw_write t0 p v
+  else (match t_make_accessible pol alloc_ok t0 o (Z.add o (Zpos XH)) with
+        | TOk t' -> t_raw_write t' (t_ptr t' o) v
+        | x -> x)
+
+type top =
+| TMov of z
+| TRead of z
+| TWrite of z * z
+| TAcc of z * z
+| TCheck of z
+
+type tobs =
+| ORead of z
+| OCheck of bool
+| ONone
+
+(** val next_alloc : bool list -> bool * bool list **)
+
+let next_alloc = function
+| [] -> (true, [])
+| x :: r -> (x, r)
+
+(** val grows : rtape -> z -> z -> bool **)
+
+let grows t0 a b =
+  negb
+    ((&&) (Z.eqb (needed_below (Z.add (to_signed t0.t_off) a)) Z0)
+      (Z.eqb (needed_above (Z.add (to_signed t0.t_off) b) t0.t_size) Z0))
+
+(** val t_run :
+    policy -> top list -> bool list -> rtape -> (tobs list * rtape) tres **)
+
+let rec t_run pol ops allocs t0 =
+  match ops with
+  | [] -> TOk ([], t0)
+  | op :: rest ->
+    let continue = fun o t' allocs' ->
+      match t_run pol rest allocs' t' with
+      | TOk a -> let (obs, tf) = a in TOk ((o :: obs), tf)
+      | x -> x
+    in
+    (match op with
+     | TMov d -> continue ONone (t_mov t0 d) allocs
+     | TRead o -> continue (ORead (t_read t0 o)) t0 allocs
+     | TWrite (o, v) ->
+       let (ok, allocs') =
+         if t_check t0 o then (true, allocs) else next_alloc allocs
+       in
+       (match t_write pol ok t0 o v with
+        | TOk t' -> continue ONone t' allocs'
+        | RawOob i -> RawOob i
+        | TooLarge -> TooLarge
+        | AllocFail -> AllocFail)
+     | TAcc (a, b) ->
+       let (ok, allocs') =
+         if grows t0 a b then next_alloc allocs else (true, allocs)
+       in
+       (match t_make_accessible pol ok t0 a b with
+        | TOk t' -> continue ONone t' allocs'
+        | RawOob i -> RawOob i
+        | TooLarge -> TooLarge
+        | AllocFail -> AllocFail)
+     | TCheck o -> continue (OCheck (t_check t0 o)) t0 allocs)
+
+type tspec = { s_cells : (z -> z); s_pos : z; s_acc : (z * z) list }
+
+(** val spec0 : tspec **)
+
+let spec0 =
+  { s_cells = (fun _ -> Z0); s_pos = Z0; s_acc = [] }
+
+(** val in_acc : (z * z) list -> z -> bool **)
+
+let in_acc acc k =
+  existsb (fun r -> (&&) (Z.leb (fst r) k) (Z.ltb k (snd r))) acc
+
+type sobs =
+| SRead of z
+| SCheck of bool
+| SNone
+
+(** val s_run : top list -> tspec -> sobs list * tspec **)
+
+let rec s_run ops s =
+  match ops with
+  | [] -> ([], s)
+  | op :: rest ->
+    let (o, s') =
+      match op with
+      | TMov d ->
+        (SNone, { s_cells = s.s_cells; s_pos = (Z.add s.s_pos d); s_acc =
+          s.s_acc })
+      | TRead o -> ((SRead (s.s_cells (Z.add s.s_pos o))), s)
+      | TWrite (o, v) ->
+        let k = Z.add s.s_pos o in
+        (SNone, { s_cells = (fun i -> if Z.eqb i k then v else s.s_cells i);
+        s_pos = s.s_pos; s_acc = ((k, (Z.add k (Zpos XH))) :: s.s_acc) })
+      | TAcc (a, b) ->
+        (SNone, { s_cells = s.s_cells; s_pos = s.s_pos; s_acc =
+          (((Z.add s.s_pos a), (Z.add s.s_pos b)) :: s.s_acc) })
+      | TCheck o -> ((SCheck (in_acc s.s_acc (Z.add s.s_pos o))), s)
+    in
+    let (obs, sf) = s_run rest s' in ((o :: obs), sf)
+
+(** val obs_match : tobs -> sobs -> bool **)
+
+let obs_match a b =
+  match a with
+  | ORead x -> (match b with
+                | SRead y -> Z.eqb x y
+                | _ -> false)
+  | OCheck x -> (match b with
+                 | SCheck must -> implb must x
+                 | _ -> false)
+  | ONone -> (match b with
+              | SNone -> true
+              | _ -> false)
+
+(** val all_match : tobs list -> sobs list -> bool **)
+
+let rec all_match a b =
+  match a with
+  | [] -> (match b with
+           | [] -> true
+           | _ :: _ -> false)
+  | x :: a' ->
+    (match b with
+     | [] -> false
+     | y :: b' -> (&&) (obs_match x y) (all_match a' b'))
+
+(** val mAG : z **)
+
+let mAG =
+  Z.pow (Zpos (XO XH)) (Zpos (XO (XO (XI (XI (XI XH))))))
+
+(** val small : z -> bool **)
+
+let small x =
+  (&&) (Z.leb (Z.opp mAG) x) (Z.leb x mAG)
+
+(** val ops_small : top list -> z -> bool **)
+
+let rec ops_small ops pos =
+  match ops with
+  | [] -> true
+  | op :: rest ->
+    (match op with
+     | TMov d ->
+       (&&) ((&&) (small d) (small (Z.add pos d)))
+         (ops_small rest (Z.add pos d))
+     | TRead o -> (&&) (small o) (ops_small rest pos)
+     | TWrite (o, _) -> (&&) (small o) (ops_small rest pos)
+     | TAcc (a, b) -> (&&) ((&&) (small a) (small b)) (ops_small rest pos)
+     | TCheck o -> (&&) (small o) (ops_small rest pos))
